@@ -22,7 +22,11 @@ func genBasic(rng *rand.Rand, seed int64) *Scenario {
 		WatchMin: 1 * ms, WatchMax: h / 2, End: 12 * h, Sample: h / 2,
 		Responsive: true, NoOutside: true, NoPreempt: true, FaultFree: true, MaxLat: h / 4}
 	for i := 1; i <= n; i++ {
-		sc.Insts = append(sc.Insts, baseInst(i, h))
+		is := baseInst(i, h)
+		if rng.Intn(5) == 0 {
+			is.Promote = "none"
+		}
+		sc.Insts = append(sc.Insts, is)
 		sc.Steps = append(sc.Steps, Step{At: time.Duration(rng.Int63n(int64(2 * h))), Kind: "start", Inst: i})
 	}
 	if rng.Intn(2) == 0 {
